@@ -36,7 +36,9 @@ def k1(ctx, kr):
         env.sent.clear(); env.json_ok.clear()
         meth, v, ids = LSP.sym_method(M, 'method', list(LSP.REQ_METHODS))
         st['v'] = v; st['ids'] = ids
-        env.params['SemanticTokensFullRequest'] = lambda: LSP.mkstruct(P, 'SemanticTokensParams', text_document=LSP.mkstruct(P, 'TextDocumentIdentifier', uri=Agg('Url', [Str('file:///d.st')])))
+        ub = M.fresh_bool('uri_has_file_scheme'); st['ub'] = ub
+        st['uri'] = 'file:///d.st' if M.branch(ub) else 'untitled:Untitled-1'
+        env.params['SemanticTokensFullRequest'] = lambda: LSP.mkstruct(P, 'SemanticTokensParams', text_document=LSP.mkstruct(P, 'TextDocumentIdentifier', uri=Agg('Url', [Str(st['uri'])])))
         env.params['Shutdown'] = UNIT
         req = LSP.mkstruct(P, 'Request', id=Agg('RequestId', [7]), method=meth, params=Opaque('json'))
         return M.call_fn(key, [_server(P, env), req])
@@ -51,15 +53,16 @@ def k1(ctx, kr):
         mname = mname[0] if mname else 'some/otherMethod'
         jsonbad = [t for t, b in env.json_ok.items() if not z3.is_true(m.eval(b, True))]
         if mname == 'shutdown': return            # intercepted by run() before handle_request; answered by handle_shutdown (K3)
-        wit = {'method': mname, 'params_deserialise': not jsonbad}
+        wit = {'method': mname, 'params_deserialise': not jsonbad, 'uri': st['uri']}
+        nonfile = st['uri'] if not st['uri'].startswith('file:') else None
         if pr.panic:
             role = 'C12/K1/panic/malformed-params' if jsonbad else 'C12/K1/panic/' + mname
             _add(kr, role, 'the server panics on a request for %s%s: %s' % (mname, ' whose params do not deserialise' if jsonbad else '', pr.panic.msg[:80]), wit, ('lsp_request', (mname, bool(jsonbad)))); return
         resp = [x for x in _msgs_in(M, env, None) if isinstance(x, EnumV) and x.name == 'Message' and x.disc == 1]
         ids = [simp(r.f[0].f[0].f[0]) for r in resp]
         if len(resp) != 1 or ids != [7]:
-            role = 'C12/K1/unanswered/unknown-method' if mname == 'some/otherMethod' else 'C12/K1/responses/%s/%d' % (mname, len(resp))
-            _add(kr, role, 'a request for method %s gets %d responses (ids %s) instead of exactly one with its id' % (mname, len(resp), ids), wit, ('lsp_request', (mname, False)))
+            role = 'C12/K1/unanswered/unknown-method' if mname == 'some/otherMethod' else 'C12/K1/responses/%s/%d%s' % (mname, len(resp), '/non-file-uri' if nonfile else '')
+            _add(kr, role, 'a request for method %s (document %s) gets %d responses (ids %s) instead of exactly one with its id' % (mname, st['uri'], len(resp), ids), wit, ('lsp_request', (mname, False, nonfile)))
         elif len(kr.validate) < 2: kr.validate.append(('lsp_request', (mname, False)))
         if len(kr.samples) < 4: kr.samples.append({'request': wit, 'responses': len(resp)})
     M.explore(entry, on_path)
@@ -67,7 +70,7 @@ def k1(ctx, kr):
     kr.functions = fn_paths(P, M.encoded); kr.models = sorted(M.models_used)
     kr.stubs = ['lsp_server::Request::extract by contract (MethodMismatch iff method differs, else Ok or JsonError)', 'LspProject::tokenize -> arbitrary Ok/Err', 'crossbeam Sender::send records the message',
                 '<T as Request>::METHOD constants are pairwise distinct strings (LSP specification)', 'logging disabled']
-    kr.bounds = 'one arbitrary Request {id, method symbolic over the known METHOD constants or any other string, params deserialise or not}; one step of handle_request'
+    kr.bounds = 'one arbitrary Request {id, method symbolic over the known METHOD constants or any other string, params deserialise or not, document URI with the file scheme or another scheme}; one step of handle_request'
     kr.exhaustive = True
 
 def _add(kr, role, what, wit, replay):
@@ -76,15 +79,16 @@ def _add(kr, role, what, wit, replay):
     kr.findings.append(Finding(role, what, wit, replay=REPLAYS[replay[0]](*replay[1]) if replay else None))
 
 @replay_factory('lsp_request')
-def _replay_request(method, malformed):
+def _replay_request(method, malformed, uri=None):
     def rp(ctx):
+        doc = uri or 'file:///tmp/verif_c12.st'
         import lspclient
         s = lspclient.LspSession(ctx.ironplcc_path())
         try:
             s.initialize()
             s.did_open('file:///tmp/verif_c12.st', 'PROGRAM p\nEND_PROGRAM\n', 1); s.diagnostics_for('file:///tmp/verif_c12.st', timeout=10)
             m = 'textDocument/hover' if method == 'some/otherMethod' else method
-            params = {'bogus': 1} if malformed else ({'textDocument': {'uri': 'file:///tmp/verif_c12.st'}, 'position': {'line': 0, 'character': 0}} if 'hover' in m else {'textDocument': {'uri': 'file:///tmp/verif_c12.st'}})
+            params = {'bogus': 1} if malformed else ({'textDocument': {'uri': doc}, 'position': {'line': 0, 'character': 0}} if 'hover' in m else {'textDocument': {'uri': doc}})
             rid = s.request(m, params)
             r = s.wait_for(lambda x: x.get('id') == rid, timeout=3)
             extra = [x for x in s.drain(0.3) if x.get('id') == rid]
